@@ -572,5 +572,14 @@ PROPS["C17"]["rules"] = PROPS["C17"]["rules"] + [rules_loops.rule_end_scan]
 PROPS["C17"]["explanation"] += " (ENDSCAN) HTPstart raises its end-of-file estimate inside the walk over the DD blocks, from the walk's current block and descriptor."
 PROPS["C02"]["rules"] = PROPS["C02"]["rules"] + [rules_loops.rule_end_scan]
 
+PROPS["C20"]["rules"] = PROPS["C20"]["rules"] + [rules_limits.rule_seek_product_bounded]
+PROPS["C20"]["explanation"] += " (SEEKPROD) a caller-supplied integer that is multiplied into a seek offset is compared with an upper bound first."
+
+PROPS["C13"]["rules"] = PROPS["C13"]["rules"] + [rules_handles.rule_attach_exclusive]
+PROPS["C13"]["explanation"] += " (ATTACHEXCL) VSattach replaces the shared access element of an instance it found in the table only on paths where nothing is attached to it."
+
+PROPS["C13"]["rules"] = PROPS["C13"]["rules"] + [rules_handles.rule_group_check_is_not_lookup]
+PROPS["C13"]["explanation"] += " (GROUPONLY) a public routine that classifies an id with HAatom_group also looks it up in the atom table."
+
 NOT_APPLICABLE = {}
 
